@@ -275,6 +275,25 @@ pub fn set_condition_register_signed(
     Ok(())
 }
 
+/// Sets CR0 from the signed comparison of the instruction's result (its first
+/// operand) with zero, as record forms of instructions do.
+pub fn update_cr0(
+    control_flow_graph: &mut ControlFlowGraph,
+    instruction: &capstone::Instr,
+) -> Result<(), Error> {
+    let detail = details(instruction)?;
+
+    let result = get_register(detail.operands[0].reg())?.expression();
+    let cr0 = get_register(ppc_reg::PPC_REG_CR0)?.scalar();
+
+    let exit = control_flow_graph
+        .exit()
+        .ok_or("record form instruction without an exit block")?;
+    let block = control_flow_graph.block_mut(exit)?;
+
+    set_condition_register_signed(block, cr0, result, expr_const(0, 32))
+}
+
 pub fn set_condition_register_unsigned(
     block: &mut Block,
     condition_register: Scalar,
